@@ -845,11 +845,16 @@ func (e *Env) call(x ECall) EVal {
 								if idx < len(e.st.Calls[j].ResTys) {
 									ty = e.st.Calls[j].ResTys[idx]
 								}
-								return EVal{T: u.Fresh("unknown_lastresult", e.st.Calls[j].Res[idx].Sort), Ty: ty}
+								return EVal{T: ev.havocVal(u, name, idx, e.st.Calls[j].Res[idx].Sort), Ty: ty}
 							}
 						}
 					}
-					return EVal{T: u.Fresh("unknown_lastresult", SV)}
+					// no earlier call on this path: take the sort from the function's signature
+					if f := u.P.funcByName(e.pkg, name); f != nil && idx < f.Signature.Results().Len() {
+						rt := f.Signature.Results().At(idx).Type()
+						return EVal{T: ev.havocVal(u, name, idx, u.P.TW.SortOf(rt)), Ty: rt}
+					}
+					return EVal{T: ev.havocVal(u, name, idx, SV)}
 				}
 				if d == name {
 					if idx < len(ev.Res) {
